@@ -1,4 +1,11 @@
-(** * StoreProofs: the trie of B+-trees refines a sorted map (get / put / remove). *)
+(** * StoreProofs: the trie of B+-trees refines a sorted map (get / put / remove).
+
+    A. keys and paths ([path_of_key] / [kop] are inverse bijections between byte
+       strings and valid paths).
+    B. the abstraction [abs_tree] and the store invariant [WF_store] (= [WFL] with
+       no dangling link); lookups along a path over the entry function [ent].
+    C. [abs_tree_sorted], [get_refines], [put_refines], [remove_refines],
+       [empty_tree_wf], [null_tree_wf]; membership [abs_tree_in]; [WF_store_facts]. *)
 From Coq Require Import ZArith NArith PeanoNat Lia ZifyBool ZifyN Bool List Sorted Permutation.
 From Yk Require Import ListAux Word64 PermDefs VersionDefs KeyDefs KeyProofs TreeDefs ScanDefs
      SpecDefs LeafProofs LayerProofs.
